@@ -19,9 +19,26 @@ import (
 
 const (
 	verifRoot = "/verif"
-	repoRoot  = "/repo"
 	repoMod   = "github.com/go-text/typesetting"
 )
+
+// repoRoot is /repo. Development only: VF_REPO points the check at a scratch worktree (used to run
+// seeded changes without touching /repo); evidence and replays then go to VF_OUT (default <VF_REPO>.vfout)
+// so that the registered outputs under /verif are not overwritten. Registered commands never set it.
+var (
+	repoRoot = "/repo"
+	outRoot  = verifRoot
+)
+
+func init() {
+	if v := os.Getenv("VF_REPO"); v != "" {
+		repoRoot = v
+		outRoot = v + ".vfout"
+		if o := os.Getenv("VF_OUT"); o != "" {
+			outRoot = o
+		}
+	}
+}
 
 type TierSpec struct {
 	Split      []int  `json:"split,omitempty"`    // sizes of the leading vfChoice dimensions that are spread over workers
@@ -55,9 +72,10 @@ type HarnessSpec struct {
 }
 
 type GenSpec struct {
-	Tool  string `json:"tool,omitempty"`  // binary under /verif/bin
-	GoRun string `json:"gorun,omitempty"` // or: directory under /verif/tools started with `go run .` (links against the current /repo)
-	File  string `json:"file"`            // file name inside the harness package
+	Tool  string   `json:"tool,omitempty"`  // binary under /verif/bin
+	GoRun string   `json:"gorun,omitempty"` // or: directory under /verif/tools started with `go run .` (links against the current /repo)
+	File  string   `json:"file"`            // file name inside the harness package
+	Args  []string `json:"args,omitempty"`  // arguments passed to the tool
 }
 
 type Index struct {
@@ -463,7 +481,7 @@ func cmdCheck(args []string) {
 		}
 		a.jobs = append(a.jobs, j)
 	}
-	replayDir := filepath.Join(verifRoot, "replays", prop)
+	replayDir := filepath.Join(outRoot, "replays", prop)
 	os.MkdirAll(replayDir, 0o755)
 	knownSeen := map[string]string{} // finding id -> replay status
 	var violLines []string
@@ -845,10 +863,10 @@ func cmdReplay(path string) int {
 
 func runGen(g GenSpec) ([]byte, error) {
 	if g.GoRun != "" {
-		cmd := exec.Command("go", "run", ".")
+		cmd := exec.Command("go", append([]string{"run", "."}, g.Args...)...)
 		cmd.Dir = filepath.Join(verifRoot, "tools", g.GoRun)
 		cmd.Env = append(os.Environ(), "GOFLAGS=-mod=mod", "GOPROXY=off", "GOSUMDB=off", "GOTOOLCHAIN=local")
 		return cmd.Output()
 	}
-	return exec.Command(filepath.Join(verifRoot, "bin", g.Tool)).Output()
+	return exec.Command(filepath.Join(verifRoot, "bin", g.Tool), g.Args...).Output()
 }
